@@ -11,8 +11,8 @@ SPEC = dict(
          "(65535 in thorough); assembled programs that load 64-bit (start, length) pairs at the 2^64 / 2^32 wrap boundaries into the pointer/"
          "length registers of a halt, log, machine or export call (outcome and output length predicted by the model's range check). Compared with the extracted Go-shaped model (repaired shape): accept/reject, instruction and block counts, "
          "jump-table fields, page count, heap pointer/limit, machine's result register, the halt output of the refine program; the model "
-         "never predicts a Go panic. Per case the runtime.MemStats.TotalAlloc delta of the call must be <= 21/20 of the model's exact "
-         "allocation account + a fixed slack (512 B; + declared/32 for the page map's buckets; + declared + 8 KiB for a run) and the "
+         "never predicts a Go panic. Per case the runtime.MemStats.TotalAlloc delta of the call must be <= 21/20 of the PROVED bound C03_alloc_bound (not of the exact "
+         "account of today's code, which the property does not fix) + a fixed slack (512 B; + declared/32 for the page map's buckets; + declared + 8 KiB for a run) and the "
          "account within the proved bound; gas used <= limit; a 15 s watchdog and a heap guard turn a hang into HANG/OOM. "
          "non-trivial = the call returned a defined result; distinct by input",
     assumptions=["programs whose decoded table contains sbrk are not RUN (one sbrk may map the whole free address space; C05 covers sbrk): "
@@ -56,7 +56,7 @@ MANIFEST = dict(
          "gas) end within gas+1 steps (over Model/PvmRun.v). Allocation: the model's account of every make / &T{} / append while loading "
          "is <= 512*|blob| + 64 KiB + 129/128 * (z*Z_P + P(s) + P(|o|) + P(|w|) + P(|a|)). Tie to the code on every run: malformed-input "
          "stream through the real Go entry points under recover(), outcome class and parse observables equal to the extracted model, "
-         "measured TotalAlloc <= 21/20 of the model's exact account + a small fixed slack (and the account within the proved bound), gas used <= limit, watchdog.",
+         "measured TotalAlloc <= 21/20 of the proved bound + a small fixed slack (and the account within the proved bound), gas used <= limit, watchdog.",
     note="PARTIAL where the property speaks of real memory: the theorem bounds the model's account of requested sizes; the Go allocator, "
          "size-class rounding, the page map's buckets and run-time allocations (sbrk pages up to the address space, host-call buffers, the "
          "halt output) are measured, not proved. Not modelled: the interpreter handlers themselves (C01/C02/C05: their table lookups are "
